@@ -115,6 +115,7 @@ line2</a><a/></r>`,
 	`<r><!-- a
 b --><a k="v&#10;w">t</a></r>`,
 	`<r><a>&co;</a></r>`,
+	`<r><a id="&co;">x &co; y</a><a>&lt;</a></r>`,
 	`<r><a>1</a><a>2</a><a>3</a></r>`,
 	`<r><unclosed></r>`,
 	`<r xmlns="urn:u1"><a b="c"/><a>é</a></r>`,
@@ -284,7 +285,7 @@ func famC20(rn *Runner) {
 		dir := filepath.Join(base, fmt.Sprintf("t%d", ci))
 		os.MkdirAll(dir, 0o755)
 		files := genCliTree(r, dir, 3+r.Intn(7))
-		run := &cliRun{all: r.Chance(1, 3), m: r.Chance(1, 4), n: r.Chance(1, 3), rec: r.Chance(1, 2), unstrict: r.Chance(1, 6)}
+		run := &cliRun{all: r.Chance(1, 3), m: r.Chance(1, 4), n: r.Chance(1, 3), rec: r.Chance(1, 2), unstrict: r.Chance(1, 4)}
 		if r.Chance(1, 6) {
 			run.ftype = pick(r, []string{"xml", "html", "json"})
 		}
@@ -311,7 +312,7 @@ func famC20(rn *Runner) {
 		env.NS = []NSBind{{"p", "urn:u1"}}
 		run.vars = [][2]string{{"x", pick(r, []string{"val", "other"})}}
 		env.Vars = []VarBind{{"", "x", VarVal{Kind: "str", Str: run.vars[0][1]}}}
-		if r.Chance(1, 3) {
+		if r.Chance(1, 2) {
 			run.ents = [][2]string{{"co", "ACME"}}
 		}
 		args := []string{"-x", run.expr, "-s", "p=urn:u1", "-v", "x=" + run.vars[0][1]}
